@@ -87,7 +87,7 @@ func (c17) Cases(tier string) int {
 func (c17) Describe() core.Info {
 	return core.Info{
 		Level: "exploration",
-		Rule: "typed random programs WITHOUT termination guards (unbounded fn:plus / fn:mult / fn:list:cons through recursion) mixed with terminating ones, base facts preloaded, evaluated with WithCreatedFactLimit(L), L in {1,2,5,20,100} (a quarter of the cases add a random subset of the options that have nothing to do with the limit: WithNowMarker, WithTemporalStore, WithEvaluationTime, WithDeterministicOrder), on every writable store kind behind a counting wrapper; every 10th case is a counting chain level(N,D) (guarded to 3..4000 keys or unguarded, one or two rules) on a predicate declared with fundep + merge (facts merged per key through a deferred lattice predicate), or the same chain without the declaration as control: one fresh key per round (or, in a third of them, one key whose value rises every round: an ascending chain in the lattice, a single stored fact replaced again and again), so only a limit on created facts can stop it; 0-3 further facts pad(i) are written in the program and in half of these cases L is exactly (or one more than) the number of facts written in the program, i.e. the budget is used up when the chain's stratum starts; a nil error there requires every level(n,n) up to the guard. Decided on logical steps: the wrapper aborts the run when successful Adds exceed B (or when Add was called more than 8B+200 times, successful or not: a run that keeps offering facts without the store growing does not return) = (rules+3)*(L+1)*(strata+1) (violation: unbounded creation); a nil error requires the store to equal the reference model, which is computed with a bound of (rules+3)*(L+1)+50 derived facts (reference larger => the engine must have returned an error, because its own per-join/per-round/per-store checks cap what an error-free run can create). Non-trivial: program diverges (reference exceeds its bound) or its number of derived facts is within +-3 of L; distinct by (program, L, store).",
+		Rule: "typed random programs WITHOUT termination guards (unbounded fn:plus / fn:mult / fn:list:cons through recursion) mixed with terminating ones (a third of them with aggregating rules, whose input relations may be larger than the limit), base facts preloaded, evaluated with WithCreatedFactLimit(L), L in {1,2,5,20,100} (a quarter of the cases add a random subset of the options that have nothing to do with the limit: WithNowMarker, WithTemporalStore, WithEvaluationTime, WithDeterministicOrder), on every writable store kind behind a counting wrapper; every 10th case is a counting chain level(N,D) (guarded to 3..4000 keys or unguarded, one or two rules) on a predicate declared with fundep + merge (facts merged per key through a deferred lattice predicate), or the same chain without the declaration as control: one fresh key per round (or, in a third of them, one key whose value rises every round: an ascending chain in the lattice, a single stored fact replaced again and again), so only a limit on created facts can stop it; 0-3 further facts pad(i) are written in the program and in half of these cases L is exactly (or one more than) the number of facts written in the program, i.e. the budget is used up when the chain's stratum starts; a nil error there requires every level(n,n) up to the guard. Decided on logical steps: the wrapper aborts the run when successful Adds exceed B (or when Add was called more than 8B+200 times, successful or not: a run that keeps offering facts without the store growing does not return) = (rules+3)*(L+1)*(strata+1) (violation: unbounded creation); a nil error requires the store to equal the reference model, which is computed with a bound of (rules+3)*(L+1)+50 derived facts (reference larger => the engine must have returned an error, because its own per-join/per-round/per-store checks cap what an error-free run can create). Non-trivial: program diverges (reference exceeds its bound) or its number of derived facts is within +-3 of L; distinct by (program, L, store).",
 		Assumptions: []string{"an error on a small terminating program is not judged (the property does not exclude it); it is counted", "B is derived from the per-join, per-round and per-store limit checks of the loop and is deliberately generous"},
 		PerCaseTimeout: 120e9,
 	}
@@ -95,7 +95,7 @@ func (c17) Describe() core.Info {
 
 func (c17) Gen(r *rand.Rand, tier string, i int) any {
 	o := gen.ProgOpts{Negation: r.Intn(3) == 0, Compare: r.Intn(2) == 0, Functions: true, Lists: r.Intn(2) == 0, Let: r.Intn(3) == 0,
-		Unguarded: r.Intn(4) > 0, Wildcards: false, FnInAtoms: true, MaxIDB: 4}
+		Unguarded: r.Intn(4) > 0, Wildcards: false, FnInAtoms: true, MaxIDB: 4, Do: r.Intn(3) == 0, DoPercent: 60}
 	if i%50 == 7 {
 		// the canonical divergent list builder: p([]). p(Y) :- p(X), Y = fn:list:cons(k, X).
 		k := gen.ConstT(gen.Num(int64(r.Intn(6))))
